@@ -187,6 +187,11 @@ Definition Pinfix (f : nat) : Prop := forall acc q arr k,
   q_err q = false -> okb b (q_toks q ++ q_toks u) -> kcompat k ->
   resume b c (pinfix b c f acc q arr k) u = pinfix b c f acc (qapp q u) arr k.
 
+(* the operand of a reader prefix (only reached with b = true: with b = false the token is excluded) *)
+Definition Pprefix (f : nat) : Prop := forall acc q name k,
+  b = true -> q_err q = false -> okb b (q_toks q ++ q_toks u) -> kcompat k ->
+  resume b c (pprefix b c f acc q name k) u = pprefix b c f acc (qapp q u) name k.
+
 Lemma len_ne : forall (q : queue) n, (n < length (q_toks q))%nat -> q_toks q <> [].
 Proof. intros q n H; destruct (q_toks q); [simpl in H; lia|discriminate]. Qed.
 
@@ -200,9 +205,9 @@ Proof.
   apply okb_hd in Hok. unfold is_sugar in *. simpl in Hs. rewrite Hk in Hok. rewrite Hok in Hs. discriminate.
 Qed.
 
-Lemma main_resume : forall f, Pexpr f /\ Plist f /\ Parray f /\ Pinfix f.
+Lemma main_resume : forall f, Pexpr f /\ Plist f /\ Parray f /\ Pinfix f /\ Pprefix f.
 Proof.
-  induction f as [|f [IHe [IHl [IHa IHi]]]].
+  induction f as [|f [IHe [IHl [IHa [IHi IHp]]]]].
   - repeat split; red; intros; reflexivity.
   - assert (Pexpr (S f)) as HE.
     { red. intros acc top q k Hq Hok Hne Hk Hend. simpl pexpr.
@@ -213,13 +218,12 @@ Proof.
       intros Hne'.
       rewrite (tok_at_qapp0 q Hne'), (qapp_tail q Hne').
       assert (okb b (q_toks (q_tail q) ++ q_toks u)) as Hok1 by (apply okb_tail; assumption).
-      assert (forall name, kcompat (fun e q2 => k (list2 (sym name) e) q2)) as Hsug.
-      { intros name e q2 He Hq2 Hok2. apply Hk; [reflexivity|exact Hq2|exact Hok2]. }
       assert (forall name kd, t_kind (tok_at q 0) = kd -> is_sugar (mkTok kd []) = true ->
-              resume b c (pexpr b c f acc false (q_tail q) (fun e q2 => k (list2 (sym name) e) q2)) u =
-              pexpr b c f acc false (qapp (q_tail q) u) (fun e q2 => k (list2 (sym name) e) q2)) as Hs.
-      { intros name kd Hkd Hsu. apply IHe; [exact Hq|exact Hok1| |apply Hsug|discriminate].
-        intros _ Hb. exfalso. eapply sugar_absurd; eauto. }
+              resume b c (pprefix b c f acc (q_tail q) name k) u =
+              pprefix b c f acc (qapp (q_tail q) u) name k) as Hs.
+      { intros name kd Hkd Hsu. assert (b = true \/ b = false) as [Eb|Eb] by (destruct b; auto).
+        - apply IHp; [exact Eb|exact Hq|exact Hok1|exact Hk].
+        - exfalso. eapply sugar_absurd; eauto. }
       destruct (t_kind (tok_at q 0)) eqn:K;
         try reflexivity;
         try (apply Hk; [reflexivity|exact Hq|exact Hok1]);
@@ -328,6 +332,12 @@ Proof.
       destruct (kind_is (tok_at q 0) TRCurly); [apply Hk; [reflexivity|exact Hq|apply okb_tail; assumption]|].
       apply IHe; [exact Hq|exact Hok|intros _ _; exact Hne| |discriminate].
       red. intros e q2 _ Hq2 Hok2. apply IHi; [exact Hq2|exact Hok2|exact Hk]. }
+    assert (Pprefix (S f)) as HP.
+    { red. intros acc q name k Eb Hq Hok Hk. simpl pprefix.
+      apply IHe; [exact Hq|exact Hok|intros _ Hb; congruence| |discriminate].
+      red. intros e q2 He Hq2 Hok2. destruct (is_comment e).
+      - apply IHp; [exact Eb|exact Hq2|exact Hok2|exact Hk].
+      - apply Hk; [reflexivity|exact Hq2|exact Hok2]. }
     repeat split; assumption.
 Qed.
 
